@@ -32,6 +32,8 @@ type SemOpts struct {
 	Off map[string]bool
 	// Bias
 	ManyTypes bool
+	// ServiceBias: more services, inheritance chains preferably across files
+	ServiceBias bool
 	// DupLiterals: set literals may repeat an item (legal for a set; used where
 	// only determinism / termination matter)
 	DupLiterals bool
@@ -171,7 +173,7 @@ func GenProgram(r *core.Rand, o SemOpts) *Program {
 				d = &Struct{Kind: KUnion, Name: g.tname("Un")}
 			case c < 9:
 				d = &Struct{Kind: KException, Name: g.tname("Ex")}
-			case c < 11:
+			case c < 11 && !(o.ServiceBias && c >= 9):
 				if !o.Constants {
 					d = &Struct{Kind: KStruct, Name: g.tname("St")}
 				} else {
@@ -981,9 +983,14 @@ func sameType(a, b *TypeRef) bool {
 func (g *semGen) fillService(di *defInfo, s *Service) {
 	r := g.r
 	// parent: a lower-ranked service (acyclic)
-	if r.Chance(1, 2) {
-		for _, v := range g.visible(di.file) {
-			if ps, ok := v.di.def.(*Service); ok && v.di.rank < di.rank && r.Chance(1, 2) {
+	if r.Chance(1, 2) || g.o.ServiceBias {
+		vis := g.visible(di.file)
+		// included files first when chains across files are wanted
+		if g.o.ServiceBias {
+			sort.SliceStable(vis, func(a, b int) bool { return vis[a].qual != "" && vis[b].qual == "" })
+		}
+		for _, v := range vis {
+			if ps, ok := v.di.def.(*Service); ok && v.di.rank < di.rank && (r.Chance(1, 2) || g.o.ServiceBias && r.Chance(4, 5)) {
 				s.Parent = v.qual + ps.Name
 				s.ParentSvc = ps
 				break
